@@ -31,7 +31,9 @@ def r1(ctx, retsets):
     for i in fn.all_insts():
         if i.op == "icmp" and i["pred"] in ("eq", "ne"):
             a, b = vf.expr(fn, i["a"]), vf.expr(fn, i["b"])
-            if any(x[0] == "load" and vf.last_field(x[1]) == "rtr_mgr_group.preference" for x in (a, b)) and any(x[0] == "phi" for x in (a, b)):
+            isp = lambda x: x[0] == "load" and vf.last_field(x[1]) == "rtr_mgr_group.preference"
+            # this group's preference against the one kept from the previous round (a local) or read from the previous element
+            if (any(isp(x) for x in (a, b)) and any(x[0] == "phi" for x in (a, b))) or (isp(a) and isp(b) and a != b):
                 pref_cmp.append(i)
     if not fn.calls("qsort") and not pref_cmp:
         raise AnalysisBroken("rtr_mgr_init: neither the sort nor the duplicate test of the group array was found")
@@ -78,9 +80,20 @@ def r1(ctx, retsets):
     # the duplicate test compares neighbours of the sorted array
     qs = fn.calls("qsort")
     good = len(qs) == 1 and vf.expr(fn, qs[0].args[0]) == ("arg", 1) and vf.expr(fn, qs[0].args[3]) == ("g", "rtr_mgr_config_cmp") and fn.dom(qs[0], pc)
-    ph = [x for x in (vf.expr(fn, pc["a"]), vf.expr(fn, pc["b"])) if x[0] == "phi"][0]
-    p = fn.insts[ph[1]]
-    last_ok = any(vf.expr(fn, v)[0] == "load" and vf.last_field(vf.expr(fn, v)[1]) == "rtr_mgr_group.preference" for v, b in p["inc"])
+    phs = [x for x in (vf.expr(fn, pc["a"]), vf.expr(fn, pc["b"])) if x[0] == "phi"]
+    if phs:
+        p = fn.insts[phs[0][1]]
+        last_ok = any(vf.expr(fn, v)[0] == "load" and vf.last_field(vf.expr(fn, v)[1]) == "rtr_mgr_group.preference" for v, b in p["inc"])
+    else:
+        # groups[i].preference against groups[i - 1].preference
+        def index_of(x):
+            e = x[1]
+            while isinstance(e, tuple) and e[0] == "fld":
+                e = e[1]
+            return e[2] if isinstance(e, tuple) and e[0] in ("idx", "ptradd") else None
+        ia, ib = index_of(vf.expr(fn, pc["a"])), index_of(vf.expr(fn, pc["b"]))
+        last_ok = ia is not None and ib is not None and (ib in (("bin", "sub", ia, ("c", 1)), ("bin", "add", ia, ("c", -1))) or
+                                                         ia in (("bin", "sub", ib, ("c", 1)), ("bin", "add", ib, ("c", -1))))
     guards = [(vf.expr(fn, g), t) for g, t, br in es.guards_of(fn, pc)]
     notfirst = any(g[0] == "icmp" and g[1] in ("ugt", "ne") and t and g[3] == ("c", 0) for g, t in guards)
     ctx.check(good and last_ok and notfirst, "C15.R1", "duplicates-found-among-sorted-neighbours", pc.loc(),
@@ -309,15 +322,25 @@ def r4(ctx, retsets):
                 continue
             n += 1
             ctx.touch(f)
-            guards = [(vf.expr(f, g), t) for g, t, br in es.guards_of(f, c)]
-            synced = any(vf.mentions(g, lambda x: isinstance(x, tuple) and x[0] == "call" and x[1] == "rtr_mgr_config_status_is_synced" and x[3][0] == vf.expr(f, c.args[1])) and t for g, t in guards)
+            # along the paths: whatever form the test takes (directly in the if, kept in a local first), the report is reached only
+            # after rtr_mgr_config_status_is_synced(group) answered true
+            seen_sy = []
+
+            def cl_sy(inst, E, st, c=c, f=f, seen_sy=seen_sy):
+                if inst.op == "call" and inst.callee == "rtr_mgr_config_status_is_synced" and vf.expr(f, inst.args[0]) == vf.expr(f, c.args[1]):
+                    return [(["=sy:1"], {inst.ref: flow.av_in(1)}), (["=sy:0"], {inst.ref: flow.av_in(0)})]
+                if inst is c:
+                    seen_sy.append(st.get("sy"))
+                return None
+            es.count_effects(f, pdb, cl_sy, retsets, cap=64)
+            synced = bool(seen_sy) and all(x == "1" for x in seen_sy)
             nxt = [k for k in f.calls("rtr_mgr_close_less_preferable_groups") if k.block.id == c.block.id and f.dom(c, k)]
             between = [i for i in c.block.insts if nxt and c.idx < i.idx < nxt[0].idx and i.op in ("call", "store")]
             follow = bool(nxt) and not between and vf.expr(f, nxt[0].args[2]) == vf.expr(f, c.args[1]) and vf.expr(f, nxt[0].args[1]) == vf.expr(f, c.args[0])
             ctx.check(synced and follow, "C15.R4", "ESTABLISHED-report@%s#%d" % (f.name, n), c.loc(),
                       "under status_is_synced(group): %s; followed at once by close_less_preferable_groups(config, group): %s" % (synced, follow),
                       key="C15.R4:%s:established" % f.name)
-    ctx.floor("C15.R4", n, 2)
+    ctx.floor("C15.R4", n, 1)
     # no other writer of the ESTABLISHED status
     for s in vf.stores_to_field(pdb, "rtr_mgr_group.status"):
         v = vf.expr(s.fn, s["val"])
